@@ -59,9 +59,25 @@ for (fid, pid), es in sorted(byf.items(), key=lambda x: (int(x[0][0][1:]), x[0][
 
 out.append('\n### 9.3 Seeded changes and the checks that report them\n')
 out.append('Each row is one change produced by an isolated sub-agent (property text and a scratch worktree only), confirmed with `seeded/verify.sh` '
-           '(demo passes on HEAD, fails with the patch, existing tests still pass), then run against the check with `seeded/detect.sh`.\n')
+           '(demo passes on HEAD, fails with the patch, existing tests still pass). The outcome column is what the thorough tier of the property\'s check '
+           'measured on the current tree (the change applied as an in-memory overlay); "first report" is the first obligation it reports that the unchanged tree does not.\n')
 out.append('| seed | property | files changed | outcome | first report |')
 out.append('|---|---|---|---|---|')
+import sys
+evdir = sys.argv[1] if len(sys.argv) > 1 else f'{V}/evidence'
+seedres = {}
+for pid in claimed:
+    f = f'{evdir}/{pid}.json'
+    if not os.path.exists(f):
+        continue
+    cov = json.load(open(f))['coverage']
+    sc = cov.get('seeded_changes')
+    if not sc:
+        continue
+    for smp in sc.get('samples', []):
+        seedres[smp['seed']] = ('reported' if smp['reported'] else 'NOT reported', (smp.get('first_reports') or [''])[0])
+    for st in sc.get('stale', []):
+        seedres[st.split(':')[0]] = ('stale (' + st.split(': ', 1)[-1] + ')', '')
 nd = nm = 0
 for d in sorted(glob.glob(f'{V}/seeded/C*_*')):
     sid = os.path.basename(d)
@@ -69,21 +85,30 @@ for d in sorted(glob.glob(f'{V}/seeded/C*_*')):
         meta = json.load(open(f'{d}/meta.json'))
     except Exception:
         continue
-    det = {}
-    if os.path.exists(f'{d}/detection.json'):
-        det = json.load(open(f'{d}/detection.json'))
     pid = meta.get('property')
-    res = det.get('checks_run', {}).get(pid, 'not run')
-    rep = ''
-    for r in det.get('reports', {}).get(pid, [])[:1]:
-        rep = re.sub(r'^(VIOLATION|UNDECIDED) \[[^\]]*\] ', '', r)[:140].replace('|', '/')
-    if res == 'detected':
+    res, rep = seedres.get(sid, ('not run', ''))
+    rep = re.sub(r'^[^|]*\|', '', rep)[:150].replace('|', '/')
+    if res == 'reported':
         nd += 1
-    elif res == 'missed':
+    elif res.startswith('NOT'):
         nm += 1
     files = ', '.join(os.path.basename(x) for x in (meta.get('files_changed') or []))
     out.append(f"| {sid} | {pid} | {files} | {res} | {rep} |")
-out.append(f'\nDetected: {nd}; missed: {nm}.\n')
+out.append(f'\nReported: {nd}; not reported: {nm}.\n')
+
+out.append('### 9.3b Derived single-edit mutants (thorough tier, last run)\n')
+out.append('| property | generated | analysed | type-checked | killed | by kind |')
+out.append('|---|---|---|---|---|---|')
+for pid in claimed:
+    f = f'{evdir}/{pid}.json'
+    if not os.path.exists(f):
+        continue
+    dm = json.load(open(f))['coverage'].get('derived_mutants')
+    if not dm:
+        continue
+    kinds = '; '.join(f'{k} {v}' for k, v in sorted(dm.get('by_kind', {}).items()))
+    out.append(f"| {pid} | {dm['generated']} | {dm['analysed']} | {dm['type_checked']} | {dm['killed']} | {kinds} |")
+out.append('')
 
 text = '\n'.join(out)
 p = f'{V}/DESIGN.md'
